@@ -21,6 +21,11 @@ pub struct Session {
     pub mode: Mode,
     pub solver: String,
     pub float_bits: (u32, u32),
+    /// mode O only: order abstraction used for path pruning - every term is an opaque element that is either
+    /// NaN or a point of the real line; comparison literals keep their IEEE meaning (unordered on NaN).
+    /// Any IEEE model maps to a model of the abstraction, so `unsat` here implies `unsat` bit-precisely
+    /// (pruning with it never drops a feasible path); obligations are never asked in this mode.
+    pub abs: bool,
     child: Option<Child>,
     stdin: Option<ChildStdin>,
     rx: Option<Receiver<String>>,
@@ -36,6 +41,10 @@ pub struct Session {
     pub solver_time: Duration,
     pub restarts: u64,
     pub last_query: String,
+    /// budget of the incremental stage of a query (ms)
+    pub fast_ms: u64,
+    /// queries that had to be re-asked in a fresh process
+    pub oneshots: u64,
 }
 
 pub fn solver_cmd(name: &str) -> (String, Vec<String>) {
@@ -56,6 +65,7 @@ impl Session {
             mode,
             solver: solver.into(),
             float_bits,
+            abs: false,
             child: None,
             stdin: None,
             rx: None,
@@ -70,13 +80,26 @@ impl Session {
             solver_time: Duration::ZERO,
             restarts: 0,
             last_query: String::new(),
+            fast_ms: 2500,
+            oneshots: 0,
         };
+        s.spawn();
+        s
+    }
+    /// pruning session for mode O using the order abstraction
+    pub fn new_abs(timeout_ms: u64) -> Session {
+        let mut s = Session::with_solver(Mode::O, timeout_ms, "z3", (11, 53));
+        s.abs = true;
+        if let Some(mut c) = s.child.take() {
+            let _ = c.kill();
+            let _ = c.wait();
+        }
         s.spawn();
         s
     }
     fn prelude(&self) -> String {
         let mut p = String::from("(set-option :print-success false)\n(set-logic ALL)\n");
-        if self.mode == Mode::O {
+        if self.mode == Mode::O && !self.abs {
             let (e, m) = self.float_bits;
             p += &format!("(define-sort F () (_ FloatingPoint {e} {m}))\n");
             for f in ["uadd", "usub", "umul", "udiv", "urem", "ureme", "udive", "upow"] {
@@ -117,13 +140,26 @@ impl Session {
         self.names.clear();
         self.pending.clear();
     }
+    /// kill the solver process and start a new one that is brought to the same base level (all
+    /// declarations and definitions are replayed), so rendered term names stay valid
     fn restart(&mut self) {
         if let Some(mut c) = self.child.take() {
             let _ = c.kill();
             let _ = c.wait();
         }
         self.restarts += 1;
+        let log = std::mem::take(&mut self.base_log);
+        let keep = (std::mem::take(&mut self.defined), std::mem::take(&mut self.declared_vars), std::mem::take(&mut self.declared_bools), std::mem::take(&mut self.names), std::mem::take(&mut self.pending));
         self.spawn();
+        let pre = self.prelude();
+        let rest = log.strip_prefix(pre.as_str()).unwrap_or("").to_string();
+        self.base_log += &rest;
+        self.send(&rest);
+        self.defined = keep.0;
+        self.declared_vars = keep.1;
+        self.declared_bools = keep.2;
+        self.names = keep.3;
+        self.pending = keep.4;
     }
     fn send(&mut self, s: &str) {
         if let Some(i) = self.stdin.as_mut() {
@@ -150,6 +186,17 @@ impl Session {
     pub fn term(&mut self, ctx: &Ctx, t: u32) -> String {
         if let Some(s) = self.names.get(&t) {
             return s.clone();
+        }
+        if self.abs {
+            let s = match ctx.node(t) {
+                Node::Const(r) => r.smt_real(),
+                _ => {
+                    self.pending += &format!("(declare-const v{t} Real)\n(declare-const nan{t} Bool)\n");
+                    format!("v{t}")
+                }
+            };
+            self.names.insert(t, s.clone());
+            return s;
         }
         // iterative post-order to avoid deep recursion on long chains
         let mut stack = vec![(t, false)];
@@ -265,6 +312,19 @@ impl Session {
     }
     /// comparison between two terms in the session's number semantics
     pub fn cmp(&mut self, ctx: &Ctx, k: Cmp, a: u32, b: u32) -> String {
+        if self.abs {
+            let nan = |t: u32| if matches!(ctx.node(t), Node::Const(_)) { "false".to_string() } else { format!("nan{t}") };
+            let (na, nb) = (nan(a), nan(b));
+            let (va, vb) = (self.term(ctx, a), self.term(ctx, b));
+            let o = match k {
+                Cmp::Lt => "<",
+                Cmp::Le => "<=",
+                Cmp::Gt => ">",
+                Cmp::Ge => ">=",
+                Cmp::Eq => "=",
+            };
+            return format!("(and (not {na}) (not {nb}) ({o} {va} {vb}))");
+        }
         let (a, b) = (self.term(ctx, a), self.term(ctx, b));
         self.cmp_text(k, &a, &b)
     }
@@ -276,6 +336,7 @@ impl Session {
     pub fn lit(&mut self, ctx: &Ctx, l: &Lit) -> String {
         let s = match &l.cond {
             Cond::Cmp(k, a, b) => self.cmp(ctx, *k, *a, *b),
+            Cond::ToUsize(..) | Cond::ToUsizeBig(..) if self.abs => "true".to_string(),
             Cond::ToUsize(t, Some(k)) => {
                 let t = self.term(ctx, *t);
                 if self.mode == Mode::R {
@@ -362,14 +423,17 @@ impl Session {
         self.flush_pending();
         self.queries += 1;
         let t0 = Instant::now();
-        // z3 soft timeout as well as the hard one below
-        let soft = if self.solver.starts_with("z3") { format!("(set-option :timeout {})\n", self.timeout_ms) } else { String::new() };
-        let marker = format!("(echo \"<<done{}>>\")\n", self.queries);
         let tail = if get.is_empty() { String::new() } else { format!("(echo \"<<model>>\")\n(get-value ({}))\n", get.join(" ")) };
-        let q = format!("{soft}{}{marker}", Self::query_text(asserts, &tail));
         self.last_query = Self::query_text(asserts, &tail);
+        // Stage 1: the long-lived incremental process, with a short budget. Accumulated solver state makes
+        // nonlinear queries erratic there (measured: 19 s incremental vs 0.03 s in a fresh process), so
+        // Stage 2 re-asks anything undecided in a fresh one-shot process with the full budget.
+        let stage1_ms = if self.abs { self.timeout_ms } else { self.timeout_ms.min(self.fast_ms) };
+        let soft = if self.solver.starts_with("z3") { format!("(set-option :timeout {stage1_ms})\n") } else { String::new() };
+        let marker = format!("(echo \"<<done{}>>\")\n", self.queries);
+        let q = format!("{soft}{}{marker}", self.last_query);
         self.send(&q);
-        let deadline = Instant::now() + Duration::from_millis(self.timeout_ms + 1500);
+        let deadline = Instant::now() + Duration::from_millis(stage1_ms + 1000);
         let done = format!("<<done{}>>", self.queries);
         let mut lines: Vec<String> = vec![];
         let mut timed_out = false;
@@ -388,28 +452,36 @@ impl Session {
                 }
             }
         }
-        self.solver_time += t0.elapsed();
         if timed_out {
             self.restart();
-            return (Answer::Unknown("hard timeout".into()), vec![]);
         }
-        let first0 = lines.first().cloned().unwrap_or_default();
+        let mut r = if timed_out { (Answer::Unknown("hard timeout (incremental stage)".into()), vec![]) } else { Self::parse_answer(&lines, !get.is_empty()) };
+        if matches!(r.0, Answer::Unknown(_)) && !self.abs {
+            self.oneshots += 1;
+            let lines = one_shot_lines(&self.solver, &format!("{}{}", self.base_log, self.last_query), self.timeout_ms);
+            r = match lines {
+                Some(l) => Self::parse_answer(&l, !get.is_empty()),
+                None => (Answer::Unknown("hard timeout (fresh process)".into()), vec![]),
+            };
+        }
+        self.solver_time += t0.elapsed();
+        r
+    }
+    fn parse_answer(lines: &[String], want_model: bool) -> (Answer, Vec<(String, String)>) {
+        let first = lines.first().cloned().unwrap_or_default();
         let model_at = lines.iter().position(|l| l == "<<model>>").unwrap_or(lines.len());
         for (i, l) in lines.iter().enumerate() {
-            if l.contains("(error") && (i < model_at || first0 == "sat") {
+            if l.contains("(error") && (i < model_at || first == "sat") {
                 return (Answer::Unknown(format!("solver error: {l}")), vec![]);
             }
         }
-        let first = lines.first().cloned().unwrap_or_default();
         match first.as_str() {
             "unsat" => (Answer::Unsat, vec![]),
             "sat" => {
                 let mut vals = vec![];
-                if !get.is_empty() {
-                    if let Some(p) = lines.iter().position(|l| l == "<<model>>") {
-                        let text = lines[p + 1..].join(" ");
-                        vals = parse_get_value(&text);
-                    }
+                if want_model && model_at < lines.len() {
+                    let text = lines[model_at + 1..].join(" ");
+                    vals = parse_get_value(&text);
                 }
                 (Answer::Sat, vals)
             }
@@ -419,6 +491,10 @@ impl Session {
     /// a self-contained script for the last query (for samples and for second-opinion solvers)
     pub fn standalone_last(&self) -> String {
         format!("{}{}", self.base_log, self.last_query)
+    }
+    /// run the last query as a self-contained script in a fresh one-shot process of another solver
+    pub fn second_opinion(&self, solver: &str, timeout_ms: u64) -> Answer {
+        one_shot(solver, &self.standalone_last(), timeout_ms)
     }
     pub fn version(&self) -> String {
         let (bin, _) = solver_cmd(&self.solver);
@@ -545,4 +621,80 @@ pub fn sx_to_f64(v: &str) -> Option<f64> {
         }
     }
     None
+}
+
+/// run a complete script in a fresh solver process under a hard wall-clock limit; all output lines
+pub fn one_shot_lines(solver: &str, script: &str, timeout_ms: u64) -> Option<Vec<String>> {
+    let (bin, mut args) = solver_cmd(solver);
+    if solver == "cvc5" {
+        args.push(format!("--tlimit={timeout_ms}"));
+    }
+    let pre = if solver.starts_with("z3") { format!("(set-option :timeout {timeout_ms})\n") } else { String::new() };
+    let mut child = Command::new(bin).args(args).stdin(Stdio::piped()).stdout(Stdio::piped()).stderr(Stdio::null()).spawn().ok()?;
+    let mut stdin = child.stdin.take().unwrap();
+    let text = format!("{pre}{script}\n(exit)\n");
+    std::thread::spawn(move || {
+        let _ = stdin.write_all(text.as_bytes());
+    });
+    let stdout = child.stdout.take().unwrap();
+    let (tx, rx) = channel();
+    std::thread::spawn(move || {
+        let mut out = String::new();
+        let _ = std::io::Read::read_to_string(&mut BufReader::new(stdout), &mut out);
+        let _ = tx.send(out);
+    });
+    let res = rx.recv_timeout(Duration::from_millis(timeout_ms + 2000));
+    let _ = child.kill();
+    let _ = child.wait();
+    res.ok().map(|o| o.lines().map(|l| l.trim().trim_matches('"').to_string()).collect())
+}
+/// run a complete script in a one-shot solver process under a hard wall-clock limit; first answer line
+pub fn one_shot(solver: &str, script: &str, timeout_ms: u64) -> Answer {
+    let (bin, mut args) = solver_cmd(solver);
+    if solver == "cvc5" {
+        args.push(format!("--tlimit={timeout_ms}"));
+    }
+    if std::env::var("VERIF_DUMP_SMT").is_ok() {
+        let _ = std::fs::write(format!("/tmp/verif-dump-{}-{solver}.smt2", std::process::id()), script);
+    }
+    let pre = if solver.starts_with("z3") { format!("(set-option :timeout {timeout_ms})\n") } else { String::new() };
+    let mut child = match Command::new(bin).args(args).stdin(Stdio::piped()).stdout(Stdio::piped()).stderr(Stdio::null()).spawn() {
+        Ok(c) => c,
+        Err(e) => return Answer::Unknown(format!("cannot start {solver}: {e}")),
+    };
+    let mut stdin = child.stdin.take().unwrap();
+    let text = format!("{pre}{script}\n(exit)\n");
+    std::thread::spawn(move || {
+        let _ = stdin.write_all(text.as_bytes());
+    });
+    let stdout = child.stdout.take().unwrap();
+    let (tx, rx) = channel();
+    std::thread::spawn(move || {
+        let mut out = String::new();
+        let _ = std::io::Read::read_to_string(&mut BufReader::new(stdout), &mut out);
+        let _ = tx.send(out);
+    });
+    let res = rx.recv_timeout(Duration::from_millis(timeout_ms + 2000));
+    let _ = child.kill();
+    let _ = child.wait();
+    match res {
+        Ok(out) => {
+            // an error before the verdict makes it inconclusive; get-value errors after `unsat` are expected
+            for l in out.lines() {
+                let l = l.trim();
+                if matches!(l, "sat" | "unsat" | "unknown") {
+                    break;
+                }
+                if l.contains("(error") {
+                    return Answer::Unknown(format!("{solver}: {l}"));
+                }
+            }
+            match out.lines().map(|l| l.trim()).find(|l| matches!(*l, "sat" | "unsat" | "unknown")) {
+                Some("sat") => Answer::Sat,
+                Some("unsat") => Answer::Unsat,
+                _ => Answer::Unknown(format!("{solver}: no verdict")),
+            }
+        }
+        Err(_) => Answer::Unknown(format!("{solver}: hard timeout")),
+    }
 }
